@@ -11,7 +11,31 @@ use std::collections::BTreeMap;
 
 pub struct C07;
 
-pub const TEXT_ROUTES: [&str; 5] = ["toml::to_string", "toml::to_string_pretty", "toml_edit::ser::to_string", "toml_edit::ser::to_string_pretty", "toml_edit::ser::to_document"];
+pub const TEXT_ROUTES: [&str; 7] = [
+    "toml::to_string",
+    "toml::to_string_pretty",
+    "toml_edit::ser::to_string",
+    "toml_edit::ser::to_string_pretty",
+    "toml_edit::ser::to_document",
+    "toml::Serializer::new (buffer in use)",
+    "toml::Serializer::pretty (buffer in use)",
+];
+
+/// what the caller had already written into the buffer handed to `toml::Serializer`
+const EARLIER: &str = "# written earlier\n";
+
+/// `toml::Serializer` appends to the caller's buffer: what was there must still be there, and an
+/// error must leave it alone
+fn into_used_buffer(pretty: bool, s: &Ser) -> Result<String, String> {
+    let mut out = String::from(EARLIER);
+    let r = if pretty { serde::Serialize::serialize(s, toml::Serializer::pretty(&mut out)) } else { serde::Serialize::serialize(s, toml::Serializer::new(&mut out)) };
+    match r {
+        Ok(()) if out.starts_with(EARLIER) => Ok(out),
+        Ok(()) => Ok(format!("<the buffer's earlier content {EARLIER:?} is gone> {out}")),
+        Err(e) if out == EARLIER => Err(e.to_string()),
+        Err(e) => Ok(format!("<the serializer failed ({e}) and left the buffer changed> {out}")),
+    }
+}
 
 pub fn serialize_text(route: &str, shape: &Shape, v: &Dyn) -> Result<String, String> {
     let s = Ser(shape, v);
@@ -21,6 +45,8 @@ pub fn serialize_text(route: &str, shape: &Shape, v: &Dyn) -> Result<String, Str
         "toml_edit::ser::to_string" => toml_edit::ser::to_string(&s).map_err(|e| e.to_string()),
         "toml_edit::ser::to_string_pretty" => toml_edit::ser::to_string_pretty(&s).map_err(|e| e.to_string()),
         "toml_edit::ser::to_document" => toml_edit::ser::to_document(&s).map(|d| d.to_string()).map_err(|e| e.to_string()),
+        "toml::Serializer::new (buffer in use)" => into_used_buffer(false, &s),
+        "toml::Serializer::pretty (buffer in use)" => into_used_buffer(true, &s),
         _ => unreachable!(),
     }
 }
